@@ -53,6 +53,13 @@ import (
 //	(d) ECDSA hash weaker than its curve: (P-384, SHA-256), (P-521, SHA-256), (P-521, SHA-384), public
 //	    and private keys.
 //	(e) HKDF-PRF key under 32 bytes: HkdfPrfKey, alone and as the PRF of a PrfBasedDeriverKey.
+//	(f) (a) and (b) one level down: a KmsEnvelopeAeadKey whose DEK template asks for an AES key other
+//	    than 16 or 32 bytes, an HMAC key under 16 bytes or an HMAC tag under 10 bytes (every message
+//	    would be encrypted under a freshly generated key of that template).
+//
+// Second stage for the symmetric kinds (weak2_test.go): the same weak key as an ENABLED NON-PRIMARY
+// member of a keyset with a healthy primary, and an output made under the weak key by the harness
+// references: the keyset is rejected, the factory fails, or the primitive rejects that output.
 //
 // NOT asserted (general oracle only: reject, or self-consistent primitive): sizes the library also
 // refuses but the property does not list: 16-byte AES-CMAC / AES-CMAC-PRF / XAES / (2 x 16) AES-SIV
@@ -118,6 +125,11 @@ func TestWeakKeys(t *testing.T) {
 			outcome = best(rs)
 		}
 		evid.Add("outcome_"+outcome, 1)
+		if w.ref != nil {
+			second := e.checkWeakSecond(w, in, ad)
+			evid.Add("two_key_outcome_"+second, 1)
+			evid.Add("two_key/"+w.kind+"/"+second, 1)
+		}
 		evid.Case(fmt.Sprintf("%s/%s", w.kind, outcome), true, evid.NewH().B(fingerprint(w.ks)).B(in.msg).Sum(), func() any {
 			return map[string]any{"weak": w.desc, "from": w.from, "asserted": w.asserted, "outcome": outcome, "keyset": ksText(w.ks)}
 		})
@@ -293,6 +305,9 @@ type weak struct {
 	// by the standard library, in the format the public keyset's verifier expects; nil when none can
 	// be made.
 	refSig func(msg []byte) []byte
+	// ref: second stage for the symmetric kinds (weak2_test.go): the weak key as an ENABLED
+	// non-primary member next to a healthy primary, plus a reference-made output under the weak key
+	ref *weakRef
 }
 
 var weakKinds = []string{
@@ -300,6 +315,7 @@ var weakKinds = []string{
 	"aescmac-size", "aescmac-tag", "aescmacprf-size", "aessiv-size", "xaesgcm-size",
 	"rsa-modulus", "rsa-modulus", "rsa-modulus", "rsa-exponent", "rsa-exponent", "ecdsa-hash", "ecdsa-hash",
 	"hkdfprf-key", "hkdfprf-key-in-deriver", "hmacprf-key", "jwthmac-key", "streaming-derived-size", "streaming-main-key", "streaming-hmac-tag",
+	"envelope-dek-aes-size", "envelope-dek-hmac-key", "envelope-dek-hmac-tag",
 }
 
 var weakAESSizes = []int{0, 1, 8, 15, 16, 17, 24, 31, 32, 33, 48, 64, 128}
@@ -361,6 +377,9 @@ func drawWeak(rt *rapid.T) *weak {
 		return gen.BytesN(rt, label, rapid.IntRange(0, below-1).Draw(rt, label+"_len"))
 	}
 	switch w.kind {
+	case "envelope-dek-aes-size", "envelope-dek-hmac-key", "envelope-dek-hmac-tag":
+		drawWeakEnvelope(rt, w) // envelope_test.go; builds w.ks itself
+		return w
 	case "hmac-key":
 		w.group = fMAC
 		start("Hmac")
@@ -566,6 +585,9 @@ func drawWeak(rt *rapid.T) *weak {
 		ent.KeyId = gen.KeyID(rt, "raw_id")
 	}
 	w.ks = &tinkpb.Keyset{PrimaryKeyId: ent.KeyId, Key: []*tinkpb.Keyset_Key{ent}}
+	if !usePublic {
+		w.ref = drawWeakRef(rt, w, info, ent, m)
+	}
 	return w
 }
 
